@@ -284,11 +284,12 @@ func TestVerifC02Tree(t *testing.T) {
 		// ---- further events
 		nOps := rapid.IntRange(0, 8).Draw(t, "nOps")
 		sawUpdate, sawMidRefresh, sawToggle := false, false, false
+		sawReparent, sawReparentScaling, sawReparentSubtree := false, false, false
 		for op := 0; op < nOps; op++ {
 			l := fmt.Sprintf("op%d", op)
 			live := st.live()
 			q := live[rapid.IntRange(0, len(live)-1).Draw(t, l+"Q")]
-			switch rapid.SampledFrom([]string{"refresh", "refresh", "podAdd", "podAdd", "podDelete", "total", "min", "max", "weight", "toggleLent", "deleteLeaf"}).Draw(t, l+"Kind") {
+			switch rapid.SampledFrom([]string{"refresh", "refresh", "podAdd", "podAdd", "podDelete", "total", "min", "max", "weight", "toggleLent", "deleteLeaf", "reparent", "reparent"}).Draw(t, l+"Kind") {
 			case "refresh":
 				gqm.RefreshRuntime(q.Name)
 				st.logf("refresh %s", q.Name)
@@ -350,6 +351,78 @@ func TestVerifC02Tree(t *testing.T) {
 				_ = gqm.UpdateQuota(c02QuotaObject(q))
 				st.logf("lent %s -> %v", q.Name, q.Lent)
 				sawToggle = true
+			case "reparent":
+				// UpdateQuota with a changed parent label (updateQuotaNoLockWhenParentChange). Webhook-valid: the new parent is
+				// the root or an is-parent quota outside q's own subtree, same dimensions, and the new siblings' mins plus q's
+				// min stay within the new parent's min — q's min is lowered in the same update when it would not fit (but
+				// never below the sum of its own children's mins).
+				inSubtree := func(x *c02Quota) bool {
+					for p := x; p != nil; p = st.byName[p.Parent] {
+						if p == q {
+							return true
+						}
+					}
+					return false
+				}
+				type cand struct {
+					parent string
+					min    [2]int64
+				}
+				var cands []cand
+				var floor [2]int64
+				for _, ch := range st.children(q.Name) {
+					floor[0] += ch.Min[0]
+					floor[1] += ch.Min[1]
+				}
+				if q.Parent != extension.RootQuotaName {
+					cands = append(cands, cand{extension.RootQuotaName, q.Min})
+				}
+				for _, np := range live {
+					if !np.IsParent || np.Name == q.Parent || inSubtree(np) {
+						continue
+					}
+					depthNP := 1
+					for p := np.Parent; p != extension.RootQuotaName; p = st.byName[p].Parent {
+						depthNP++
+					}
+					if depthNP >= 3 { // q lands at level <= 3; with its own subtree the tree stays <= 5 levels (the refresh passes below follow the depth)
+						continue
+					}
+					ok := true
+					nm := q.Min
+					for d := 0; d < 2; d++ {
+						room := np.Min[d]
+						for _, sib := range st.children(np.Name) {
+							room -= sib.Min[d]
+						}
+						if room < floor[d] {
+							ok = false
+						}
+						nm[d] = c02Min64(nm[d], room)
+					}
+					if ok {
+						cands = append(cands, cand{np.Name, nm})
+					}
+				}
+				if len(cands) > 0 {
+					cd := cands[rapid.IntRange(0, len(cands)-1).Draw(t, l+"NewParent")]
+					oldParent, oldMin := q.Parent, q.Min
+					q.Parent, q.Min = cd.parent, cd.min
+					for d := 0; d < 2; d++ { // max >= min stays true because min only shrinks
+						if q.Min[d] < floor[d] {
+							q.Min[d] = floor[d]
+						}
+					}
+					_ = gqm.UpdateQuota(c02QuotaObject(q))
+					st.logf("reparent %s: %s -> %s, min %v -> %v", q.Name, oldParent, q.Parent, oldMin, q.Min)
+					sawReparent = true
+					if scaleMin && (oldMin[0] > 0 || oldMin[1] > 0) {
+						sawReparentScaling = true
+					}
+					if len(st.children(q.Name)) > 0 {
+						sawReparentSubtree = true
+					}
+				}
 			case "deleteLeaf":
 				if !q.IsParent && len(live) > 1 {
 					for _, p := range q.Pods { // the plugin moves the pods away before the quota object goes
@@ -370,7 +443,16 @@ func TestVerifC02Tree(t *testing.T) {
 		if scaleMin {
 			// AutoScaleMin of a quota is only recomputed when that quota is refreshed, from its parent's
 			// runtime; level k is final after k+1 passes
-			passes = 4
+			passes = 2
+			for _, q := range live {
+				dd := 2
+				for p := q.Parent; p != extension.RootQuotaName; p = st.byName[p].Parent {
+					dd++
+				}
+				if dd > passes {
+					passes = dd
+				}
+			}
 		}
 		for p := 0; p < passes; p++ {
 			for _, i := range order {
@@ -385,6 +467,9 @@ func TestVerifC02Tree(t *testing.T) {
 		c.ClassIf(sawUpdate, "quota-updated-after-first-refresh")
 		c.ClassIf(sawMidRefresh, "refresh-in-the-middle")
 		c.ClassIf(sawToggle, "lend-flag-toggled(reset)")
+		c.ClassIf(sawReparent, "reparent")
+		c.ClassIf(sawReparentScaling, "reparent-with-scaling-relevant-mins")
+		c.ClassIf(sawReparentSubtree, "reparent-of-a-subtree")
 		depth := 1
 		for _, q := range live {
 			dd := 1
@@ -484,6 +569,20 @@ func TestVerifC02Tree(t *testing.T) {
 						}
 						if c.Violation(t, sig, "child %s of %s, dimension %d: AutoScaleMin used by the manager is %d, the scaling rule gives %v (+-%v): parent total T=%d, children's mins %v (sum %v), scaleMin=%v; history=%q",
 							k.Name, pn, d, got, expMin[i], tolMin[i], ruleTotal, modelMins, c02SumBig(modelMins), scaleMin, st.log) {
+							return
+						}
+					}
+				}
+				// the other consequence, also in the statement's terms: whatever the manager's bookkeeping says, every child gets at
+				// least the smaller of its request and its (independently computed, possibly scaled) minimum
+				for i, k := range kids {
+					lo := new(big.Int).Sub(expMin[i], tolMin[i])
+					if r := big.NewInt(sibs[i].Req); r.Cmp(lo) < 0 {
+						lo = r
+					}
+					if big.NewInt(rt[i]).Cmp(lo) < 0 {
+						if c.Violation(t, "tree:child-below-its-scaled-minimum", "child %s of %s, dimension %d: runtime %d < min(request %d, minimum by the scaling rule %v); parent total T=%d, children's mins %v, scaleMin=%v; %s; history=%q",
+							k.Name, pn, d, rt[i], sibs[i].Req, expMin[i], ruleTotal, modelMins, scaleMin, c02Describe(sibs, total, rt), st.log) {
 							return
 						}
 					}
